@@ -1,7 +1,335 @@
-(* Check/C09.v — C09: control structures and procedures execute per their operational semantics. *)
-From Molt Require Import Model.Base Check.ScriptObs.
+(* Check/C09.v — C09: control structures and procedures execute per their operational semantics.
+   The oracle is a reference interpreter that works on the PROGRAM TREE of the case (not on the
+   text): big-step rules for set/incr/expr, if/elseif/else, while, for, foreach, catch and
+   procedure calls over an environment of string-valued variables. *)
+From Molt Require Import Model.Base Model.ListSyn Model.Float Model.Value Model.State Model.Expr
+  Check.ScriptObs Spec.SpecExpr.
+Local Open Scope Z_scope.
 
 Definition c09_model_obs := script_model_obs.
-Definition c09_spec_ok (c obs : term) : bool := term_eqb obs (script_model_obs c).
+
+(* ---- reference semantics ---- *)
+Definition venv := list (str * str).
+Definition v_get (e : venv) (n : str) : option str :=
+  match find (fun kv => str_eqb (fst kv) n) e with Some kv => Some (snd kv) | None => None end.
+Definition v_set (e : venv) (n s : str) : venv :=
+  if existsb (fun kv => str_eqb (fst kv) n) e
+  then map (fun kv => if str_eqb (fst kv) n then (n, s) else kv) e
+  else e ++ [(n, s)].
+
+Inductive out9 := ONorm (v : str) | OBreak | OContinue | OReturn (v : str) | OError.
+
+Definition tg (t : term) (k : string) : bool := str_eqb (term_str (term_nth t 0)) (lit k).
+Definition dstr (d : datum) : str := datum_str d.
+
+(* expressions: None = error *)
+Fixpoint ev9 (e : venv) (t : term) : option datum :=
+  match t with
+  | TList [TStr k; TInt z] => Some (DInt z)                                   (* lit *)
+  | TList [TStr k; TStr v] =>
+      if str_eqb k (lit "var") then
+        match v_get e v with
+        | Some s => match expr_parse_string s with Ok d => Some d | _ => None end
+        | None => None
+        end
+      else (* llen *)
+        match v_get e v with
+        | Some s => match get_list s with Some (inr l) => Some (DInt (Z.of_nat (length l))) | _ => None end
+        | None => None
+        end
+  | TList [TStr k; TStr v; i] =>                                              (* lidx v e *)
+      match v_get e v, ev9 e i with
+      | Some s, Some di =>
+          (* the single index argument is itself a list of indices: none = the value itself,
+             several = a path into nested lists *)
+          match get_list (dstr di) with
+          | Some (inr idx) =>
+              match (fix path (s : str) (idx : list str) : option str :=
+                       match idx with
+                       | [] => Some s
+                       | i :: r =>
+                           match get_list s, get_int i with
+                           | Some (inr l), Some z =>
+                               path (if (z <? 0) || (Z.of_nat (length l) <=? z) then [] else nth (Z.to_nat z) l []) r
+                           | _, _ => None
+                           end
+                       end) s idx with
+              | Some el => match expr_parse_string el with Ok d => Some d | _ => None end
+              | None => None
+              end
+          | _ => None
+          end
+      | _, _ => None
+      end
+  | TList [TStr k; TStr op; a; b] =>                                          (* bin *)
+      if str_eqb op (lit "&&") || str_eqb op (lit "||") then
+        match ev9 e a with
+        | Some va =>
+            match truth va with
+            | Ok ta =>
+                if str_eqb op (lit "&&") && negb ta then Some (DInt 0)
+                else if str_eqb op (lit "||") && ta then Some (DInt 1)
+                else match ev9 e b with
+                     | Some vb => match truth vb with Ok tb => Some (DInt (if tb then 1 else 0)) | _ => None end
+                     | None => None
+                     end
+            | _ => None
+            end
+        | None => None
+        end
+      else
+        match ev9 e a, ev9 e b with
+        | Some va, Some vb => match apply_binop (tok_of_binop op) va vb with Ok d => Some d | _ => None end
+        | _, _ => None
+        end
+  | _ => None
+  end.
+
+(* the value of [expr {e}] as a string *)
+Definition ev9s (e : venv) (t : term) : option str :=
+  match ev9 e t with Some d => Some (dstr d) | None => None end.
+
+(* the truth of an `if` condition: a number is tested against zero, a string must be a boolean word *)
+Definition cond9 (e : venv) (t : term) : option bool :=
+  match ev9 e t with
+  | Some (DInt z) => Some (negb (z =? 0))
+  | Some (DFlt f) => Some (negb (f_is_zero f))
+  | Some (DStr s) => get_bool s
+  | None => None
+  end.
+
+Record st9 := { genv : venv; lenv : option venv; tr9 : list (list str) }.
+Definition cur9 (s : st9) : venv := match lenv s with Some l => l | None => genv s end.
+Definition upd9 (s : st9) (f : venv -> venv) : st9 :=
+  match lenv s with
+  | Some l => {| genv := genv s; lenv := Some (f l); tr9 := tr9 s |}
+  | None => {| genv := f (genv s); lenv := None; tr9 := tr9 s |}
+  end.
+
+Definition procs9 := list (str * (list str * list term)).
+
+Section WithProcs.
+Variable procs : procs9.
+
+Fixpoint evals (e : venv) (ts : list term) : option (list str) :=
+  match ts with
+  | [] => Some []
+  | t :: r => match ev9s e t, evals e r with Some v, Some vs => Some (v :: vs) | _, _ => None end
+  end.
+
+Fixpoint chunk_assign (e : venv) (vars : list str) (l : list str) : venv * list str :=
+  match vars with
+  | [] => (e, l)
+  | v :: vs => match l with
+               | x :: r => chunk_assign (v_set e v x) vs r
+               | [] => chunk_assign (v_set e v []) vs []
+               end
+  end.
+
+Fixpoint stmt9 (fuel : nat) (s : st9) (t : term) {struct fuel} : st9 * out9 :=
+  match fuel with
+  | O => (s, OError)
+  | S f =>
+      let block := fix block (s : st9) (b : list term) (last : str) : st9 * out9 :=
+        match b with
+        | [] => (s, ONorm last)
+        | x :: r => match stmt9 f s x with
+                    | (s1, ONorm v) => block s1 r v
+                    | other => other
+                    end
+        end in
+      (* a loop over the counter variable c from its current value while c < k *)
+      let loop_while := fix loop_while (n : nat) (s : st9) (c : str) (k : Z) (body : list term) (is_for : bool)
+                           : st9 * out9 :=
+        match n with
+        | O => (s, ONorm [])
+        | S n' =>
+            match v_get (cur9 s) c with
+            | Some cs =>
+                match get_int cs with
+                | Some cv =>
+                    if cv <? k then
+                      (* while: incr first, then the body; for: body, then incr *)
+                      let s1 := if is_for then s else upd9 s (fun e => v_set e c (show_Z (cv + 1))) in
+                      match block s1 body [] with
+                      | (s2, ONorm _) | (s2, OContinue) =>
+                          let s3 := if is_for then
+                                      match v_get (cur9 s2) c with
+                                      | Some cs2 => match get_int cs2 with
+                                                    | Some c2 => upd9 s2 (fun e => v_set e c (show_Z (c2 + 1)))
+                                                    | None => s2
+                                                    end
+                                      | None => s2
+                                      end
+                                    else s2 in
+                          loop_while n' s3 c k body is_for
+                      | (s2, OBreak) => (s2, ONorm [])
+                      | other => other
+                      end
+                    else (s, ONorm [])
+                | None => (s, OError)
+                end
+            | None => (s, OError)
+            end
+        end in
+      let loop_each := fix loop_each (n : nat) (s : st9) (vars : list str) (l : list str) (body : list term)
+                          : st9 * out9 :=
+        match n with
+        | O => (s, ONorm [])
+        | S n' =>
+            match l with
+            | [] => (s, ONorm [])
+            | _ =>
+                let '(e1, rest) := chunk_assign (cur9 s) vars l in
+                let s1 := upd9 s (fun _ => e1) in
+                match block s1 body [] with
+                | (s2, ONorm _) | (s2, OContinue) => loop_each n' s2 vars rest body
+                | (s2, OBreak) => (s2, ONorm [])
+                | other => other
+                end
+            end
+        end in
+      let e := cur9 s in
+      let name := term_str (term_nth t 1) in
+      if tg t "set" then
+        match ev9s e (term_nth t 2) with
+        | Some v => (upd9 s (fun e => v_set e name v), ONorm v)
+        | None => (s, OError)
+        end
+      else if tg t "incr" then
+        match (match v_get e name with Some cs => get_int cs | None => Some 0 end) with
+        | Some z => let nv := z + term_int (term_nth t 2) in
+                    if in_i64 nv then (upd9 s (fun e => v_set e name (show_Z nv)), ONorm (show_Z nv)) else (s, OError)
+        | None => (s, OError)
+        end
+      else if tg t "rec" then
+        match evals e (term_list (term_nth t 2)) with
+        | Some vs =>
+            ({| genv := genv s; lenv := lenv s;
+                tr9 := tr9 s ++ [lit "rec" :: (lit "t" ++ show_Z (term_int (term_nth t 1))) :: vs] |},
+             ONorm (last vs []))
+        | None => (s, OError)
+        end
+      else if tg t "lappend" then
+        match ev9s e (term_nth t 2) with
+        | Some v =>
+            match (match v_get e name with Some ls => get_list ls | None => Some (inr []) end) with
+            | Some (inr l) => let nl := list_to_string (l ++ [v]) in (upd9 s (fun e => v_set e name nl), ONorm nl)
+            | _ => (s, OError)
+            end
+        | None => (s, OError)
+        end
+      else if tg t "break" then (s, OBreak)
+      else if tg t "continue" then (s, OContinue)
+      else if tg t "return" then
+        match ev9s e (term_nth t 1) with Some v => (s, OReturn v) | None => (s, OError) end
+      else if tg t "if" then
+        (fix clauses (cl : list term) : st9 * out9 :=
+           match cl with
+           | [] => match term_list (term_nth t 2) with
+                   | [TList b] => block s b []
+                   | _ => (s, ONorm [])
+                   end
+           | c :: r =>
+               match cond9 e (term_nth c 0) with
+               | Some true => block s (term_list (term_nth c 1)) []
+               | Some false => clauses r
+               | None => (s, OError)
+               end
+           end) (term_list (term_nth t 1))
+      else if tg t "while" then
+        let c := name in
+        loop_while (S (Z.to_nat (term_int (term_nth t 2)))) (upd9 s (fun e => v_set e c (lit "0"))) c
+                   (term_int (term_nth t 2)) (term_list (term_nth t 3)) false
+      else if tg t "for" then
+        let c := name in
+        loop_while (S (Z.to_nat (term_int (term_nth t 2)))) (upd9 s (fun e => v_set e c (lit "0"))) c
+                   (term_int (term_nth t 2)) (term_list (term_nth t 3)) true
+      else if tg t "foreach" then
+        let vars := term_strs (term_nth t 1) in
+        let src := term_nth t 2 in
+        match (if tg src "lvar"
+               then match v_get e (term_str (term_nth src 1)) with
+                    | Some ls => match get_list ls with Some (inr l) => Some l | _ => None end
+                    | None => None
+                    end
+               else Some (map (fun z => show_Z (term_int z)) (term_list (term_nth src 1)))) with
+        | Some l => loop_each (S (length l)) s vars l (term_list (term_nth t 3))
+        | None => (s, OError)
+        end
+      else if tg t "catch" then
+        match block s (term_list (term_nth t 1)) [] with
+        | (s1, ONorm _) => (s1, ONorm (lit "0"))
+        | (s1, OError) => (s1, ONorm (lit "1"))
+        | (s1, OReturn _) => (s1, ONorm (lit "2"))
+        | (s1, OBreak) => (s1, ONorm (lit "3"))
+        | (s1, OContinue) => (s1, ONorm (lit "4"))
+        end
+      else if tg t "call" then
+        match evals e (term_list (term_nth t 3)),
+              find (fun p => str_eqb (fst p) (term_str (term_nth t 2))) procs with
+        | Some args, Some (_, (params, body)) =>
+            if Nat.eqb (length args) (length params) then
+              let bound := combine params args in
+              let zero := lit "0" in
+              let init := fold_left (fun acc v => if existsb (str_eqb v) params then acc else v_set acc v zero)
+                                    [lit "x"; lit "y"; lit "z"; lit "w"] bound in
+              let init := fold_left (fun acc v => v_set acc v []) [lit "l"; lit "m"; lit "a"; lit "b"] init in
+              match block {| genv := genv s; lenv := Some init; tr9 := tr9 s |} body [] with
+              | (s1, ONorm v) | (s1, OReturn v) =>
+                  (upd9 {| genv := genv s1; lenv := lenv s; tr9 := tr9 s1 |} (fun e => v_set e name v), ONorm v)
+              | (s1, _) => ({| genv := genv s1; lenv := lenv s; tr9 := tr9 s1 |}, OError)
+              end
+            else (s, OError)
+        | _, _ => (s, OError)
+        end
+      else if tg t "setif" then
+        match cond9 e (term_nth t 2) with
+        | Some b =>
+            match ev9s e (if b then term_nth t 3 else term_nth t 4) with
+            | Some v => (upd9 s (fun e => v_set e name v), ONorm v)
+            | None => (s, OError)
+            end
+        | None => (s, OError)
+        end
+      else (s, OError)
+  end.
+
+Fixpoint block9 (fuel : nat) (s : st9) (b : list term) (last : str) : st9 * out9 :=
+  match b with
+  | [] => (s, ONorm last)
+  | x :: r => match stmt9 fuel s x with
+              | (s1, ONorm v) => block9 fuel s1 r v
+              | other => other
+              end
+  end.
+End WithProcs.
+
+Definition init9 : venv :=
+  [(lit "x", lit "1"); (lit "y", lit "2"); (lit "z", lit "0"); (lit "w", lit "-1"); (lit "l", []);
+   (lit "m", lit "3 4"); (lit "a", []); (lit "b", [])].
+
+Definition c09_spec_ok (c obs : term) : bool :=
+  let tree := term_nth c 3 in
+  let procs := map (fun p => (term_str (term_nth p 0), (term_strs (term_nth p 1), term_list (term_nth p 2))))
+                   (term_list (term_nth tree 0)) in
+  let '(s, o) := block9 procs 60 {| genv := init9; lenv := None; tr9 := [] |} (term_list (term_nth tree 1)) [] in
+  match term_list obs with
+  | [TList [_; out]; TList calls; TList vars; TInt level] =>
+      Z.eqb level 0
+      && term_eqb (TList calls) (TList (map TStrs (tr9 s)))
+      && term_eqb (TList vars)
+           (TList (map (fun n => match v_get (genv s) n with
+                                 | Some v => TTag "scalar" [TStr v]
+                                 | None => TTag "unset" []
+                                 end) [lit "x"; lit "y"; lit "z"; lit "w"; lit "l"; lit "m"; lit "a"; lit "b"]))
+      && match o, out with
+         | ONorm v, TList [TStr t; TStr got] => str_eqb t (lit "Ok") && str_eqb got v
+         | OError, TList (TStr t :: _) => str_eqb t (lit "Err")
+         | _, _ => false
+         end
+  | _ => false
+  end.
 Definition c09_known (c : term) : bool := false.
-Definition c09_nontrivial (c : term) : bool := true.
+Definition c09_nontrivial (c : term) : bool :=
+  Nat.ltb 1 (length (term_list (term_nth (term_nth c 3) 1))).
